@@ -102,6 +102,23 @@ func runC06(c *Ctx) {
 			wf := BalFlags{Val: val, Interval: Pick(r, []int{0, 3, 5}), To: f.To}
 			args := append([]string{"portfolio", "weights"}, wf.Args()[1:]...)
 			add(&c06Job{Idx: i, Kind: "weights", Args: append(append(args, "--csv"), "@j.knut"), Files: files, Input: in})
+			{
+				// a universe file: classes are a YAML map (map iteration order); a commodity listed under two classes must be
+				// rejected the same way on every run (seeded change C06-e kept the first classification met)
+				_, coms := journalNames(j)
+				var ub strings.Builder
+				classes := []string{"Equity:US", "Equity:CH", "Cash", "Bonds:Gov:Long", "Other"}
+				dup := r.Chance(1, 2) && len(coms) > 0
+				for k, c := range coms {
+					fmt.Fprintf(&ub, "\"%s\": [%s]\n", classes[k%len(classes)], c)
+				}
+				if dup {
+					fmt.Fprintf(&ub, "\"Alternatives\": [%s]\n\"Zeta:Zz\": [%s]\n", coms[0], coms[len(coms)-1])
+				}
+				ufiles := map[string]string{"j.knut": text, "uni.yaml": ub.String()}
+				uin := map[string]any{"journal": text, "universe": ub.String()}
+				add(&c06Job{Idx: i, Kind: "weights-universe", Args: append(append(append([]string{}, args...), "--universe", "@uni.yaml"), "@j.knut"), Files: ufiles, Input: uin})
+			}
 			// portfolio returns: float64 sums over per-commodity maps (found on the unchanged tree by C19's stream after accrued
 			// expenses in a priced commodity were added to its journals: `0.0%` in some runs, `-0.0%` in others; repaired by 6606650)
 			rf := BalFlags{Val: val, Interval: Pick(r, []int{2, 3, 3, 4}), To: f.To}
